@@ -1,7 +1,13 @@
 from .harness import Mutant, edit_node, stmt_containing, compound_containing, to_pass, sub, is_call
 import ast
 D = 'src/pharmpy/modeling/data.py'
+def text_edit(old, new):
+    def edit(src):
+        return src.replace(old, new, 1) if old in src else None
+    return edit
 MUTANTS = [
+    Mutant('frozenmapping_shared_dict', 'src/pharmpy/internals/immutable.py', text_edit("        new = dict(self._mapping)\n        new[key] = value\n        return frozenmapping(new)", "        new = frozenmapping(self)\n        new._mapping[key] = value\n        return new"), 'M2', 'write through the shared dict'),
+    Mutant('add_iiv_raw_parameters', 'src/pharmpy/modeling/parameter_variability.py', text_edit("parameters=Parameters.create(pset)", "parameters=Parameters(tuple(pset))"), 'M6', 'new name without validation'),
     Mutant('add_cmt_no_copy', D, edit_node('add_cmt', lambda n, seg: isinstance(n, ast.Call) and seg == 'model.dataset.copy()', lambda seg: 'model.dataset'), 'M1', 'copy dropped'),
     Mutant('helper_mutates_param', D, edit_node('translate_nmtran_time', lambda n, seg: isinstance(n, ast.Call) and seg == 'model.dataset.copy()', lambda seg: 'model.dataset'), 'M1',
            'helper mutates the frame it is handed'),
